@@ -8,8 +8,11 @@ fn meta_for(check: &str, tier: Tier) -> Option<CheckMeta> {
         "C04" => qv::c04::meta(tier),
         "C05" => qv::c05::meta(tier),
         "C06" => qv::c06::meta(tier),
+        "C07" => qv::c07::meta(tier),
         "C09" => qv::c09::meta(tier),
         "C10" => qv::c10::meta(tier),
+        #[cfg(any(feature = "rocksdb", feature = "fjall"))]
+        "C11" => qv::c11::meta(tier),
         "C12" => qv::c12::meta(tier),
         "C13" => qv::c13::meta(tier),
         "C14" => qv::c14::meta(tier),
@@ -27,8 +30,11 @@ fn worker_for(ctx: &WorkerCtx) -> Report {
         "C04" => qv::c04::worker(ctx),
         "C05" => qv::c05::worker(ctx),
         "C06" => qv::c06::worker(ctx),
+        "C07" => qv::c07::worker(ctx),
         "C09" => qv::c09::worker(ctx),
         "C10" => qv::c10::worker(ctx),
+        #[cfg(any(feature = "rocksdb", feature = "fjall"))]
+        "C11" => qv::c11::worker(ctx),
         "C12" => qv::c12::worker(ctx),
         "C13" => qv::c13::worker(ctx),
         "C14" => qv::c14::worker(ctx),
